@@ -262,22 +262,8 @@ class OpMove(Op):
         if isinstance(source_parent, MutableMapping):
             del source_parent[self.source.parts[-1]]
 
-        dest_parent, _ = self.dest.resolve_parent(data)
-
-        if dest_parent is None:
-            # Move source to root
-            return source_obj  # type: ignore
-
-        if isinstance(dest_parent, MutableSequence):
-            dest_parent.insert(int(self.dest.parts[-1]), source_obj)
-        elif isinstance(dest_parent, MutableMapping):
-            dest_parent[self.dest.parts[-1]] = source_obj
-        else:
-            raise JSONPatchError(
-                f"unexpected operation on {dest_parent.__class__.__name__!r}"
-            )
-
-        return data
+        # RFC 6902: a move is a remove followed by an add at the target location.
+        return OpAdd(path=self.dest, value=source_obj).apply(data)
 
     def asdict(self) -> Dict[str, object]:
         """Return a dictionary representation of this operation."""
@@ -304,22 +290,8 @@ class OpCopy(Op):
         if source_obj is UNDEFINED:
             raise JSONPatchError("source object does not exist")
 
-        dest_parent, dest_obj = self.dest.resolve_parent(data)
-
-        if dest_parent is None:
-            # Copy source to root
-            return copy.deepcopy(source_obj)  # type: ignore
-
-        if isinstance(dest_parent, MutableSequence):
-            dest_parent.insert(int(self.dest.parts[-1]), copy.deepcopy(source_obj))
-        elif isinstance(dest_parent, MutableMapping):
-            dest_parent[self.dest.parts[-1]] = copy.deepcopy(source_obj)
-        else:
-            raise JSONPatchError(
-                f"unexpected operation on {dest_parent.__class__.__name__!r}"
-            )
-
-        return data
+        # RFC 6902: a copy is an add of the copied value at the target location.
+        return OpAdd(path=self.dest, value=copy.deepcopy(source_obj)).apply(data)
 
     def asdict(self) -> Dict[str, object]:
         """Return a dictionary representation of this operation."""
